@@ -1,5 +1,5 @@
 (* C03 model driver.  Case (one line):
-     role=<leech|leechdone|seed|iseed> np=<n> bits=<01..|-> pre=<0|1> cu=<0|1> xv=<01..|-> ho=<hex|-> stream=<hex|-> segs=<seg>/<seg>/...
+     role=<leech|leechdone|seed|iseed|meta> np=<n> bits=<01..|-> pre=<0|1> cu=<0|1> xv=<01..|-> ho=<hex|-> stream=<hex|-> segs=<seg>/<seg>/...
        seg ::= k<cap>:<len>,<len>,...      (cap 0 = unlimited; the lens partition `stream`)
      ho = bytes handed over from the handshake (push_unread + one event_read on an empty socket)
    Output: one digest per segmentation joined by " / ", then " || " + the effect sequence of the
@@ -14,6 +14,8 @@ let show_msg m = match m with
   | MPieceDone -> "PIECEDONE"
   | MExt (t, l) -> Printf.sprintf "EXT:%s:%s" (string_of_n t) (string_of_n l)
   | MExtDone -> "EXTDONE"
+  | MBitfield l -> "BITFIELD:" ^ string_of_n l
+  | MBitsDone -> "BITSDONE"
 let show_reason r = match r with
   | RLen -> "len" | RUnknownId -> "id" | RPieceRole -> "piece-role" | RPieceShort -> "piece-short"
   | RExtBad -> "ext" | RFull -> "full" | RHandler -> "handler"
@@ -24,7 +26,8 @@ let show_digest h mode buf =
   | RClosed -> "closed=1"
   | _ ->
     let st = match mode with
-      | RIdle -> "IDLE" | RPay (KPiece, l) -> "SKIP:" ^ string_of_n l | RPay (KExt, l) -> "EXT:" ^ string_of_n l | RClosed -> "?" in
+      | RIdle -> "IDLE" | RPay (KPiece, l) -> "SKIP:" ^ string_of_n l | RPay (KExt, l) -> "EXT:" ^ string_of_n l
+      | RPay (KBits, l) -> "SKIP:" ^ string_of_n l | RClosed -> "?" in
     let upq = if h.h_upq = [] then "-" else
       String.concat "," (List.map (fun ((i, o), l) -> Printf.sprintf "%s:%s:%s" (string_of_n i) (string_of_n o) (string_of_n l)) h.h_upq) in
     Printf.sprintf "closed=0 bits=%s q=%s u=%s upq=%s du=%s st=%s buf=%d"
@@ -39,10 +42,10 @@ let () = each_line (fun line ->
     | None -> ()) (split_ws line);
   let g k = try Hashtbl.find kv k with Not_found -> failwith ("missing " ^ k) in
   let (role, isdone) = match g "role" with
-    | "leech" -> (Leech, false) | "leechdone" -> (Leech, true) | "seed" -> (Seed, true) | "iseed" -> (ISeed, true)
+    | "leech" -> (Leech, false) | "leechdone" -> (Leech, true) | "seed" -> (Seed, true) | "iseed" -> (ISeed, true) | "meta" -> (Meta, false)
     | _ -> failwith "role" in
   let np = int_of_string (g "np") in
-  let bits0 = if g "bits" = "-" then List.init np (fun _ -> false) else bits_of (g "bits") in
+  let bits0 = if role = Meta then [true] else if g "bits" = "-" then List.init np (fun _ -> false) else bits_of (g "bits") in
   let pre = g "pre" = "1" in
   let c = { c_role = role; c_npieces = n_of_int np; c_done = isdone; c_can_unchoke = (g "cu" = "1");
             c_ext_verdicts = bits_of (g "xv") } in
